@@ -187,7 +187,12 @@ def run(ck, F):
             other.append(e)
     alts = [tuple((og.nf_str(c[1]), c[2]) for c in e.ctx if c[0] == "alt") for e in fwd]
     exhaustive = (len(fwd) == 1 and alts[0] == ()) or (len(fwd) == 2 and all(len(a) == 1 for a in alts) and alts[0][0][0] == alts[1][0][0] and alts[0][0][1] != alts[1][0][1])
-    cred_ok = len(cred) == 1 and not [c for c in cred[0].ctx if c[0] == "alt"] and (not fwd or all(evs.index(cred[0]) < evs.index(f) for f in fwd))
+    # on the path of every forward exactly one credentials mapping, before it (one unconditional line, or one per branch)
+    def on_path(c, f):
+        fa = {(og.nf_str(x[1]), x[2]) for x in f.ctx if x[0] == "alt"}
+        return all((og.nf_str(x[1]), x[2]) in fa for x in c.ctx if x[0] == "alt")
+    cred_ok = bool(cred) and bool(fwd) and all(
+        len([c for c in cred if on_path(c, f)]) == 1 and all(evs.index(c) < evs.index(f) for c in cred if on_path(c, f)) for f in fwd)
     if cred_ok and exhaustive and not other:
         ck.ok("R5", "method-body", evs[0].site, "method body: map credentials, then on every path exactly one forward of (&self.client, &self.location, credentials, req) to the checked helper, awaited and returned")
     else:
